@@ -284,4 +284,4 @@ def run(ctx):
                 ev.count(k)
         return f
 
-    ctx.campaign("main", cases(ctx.closed), oracle, max_examples=ctx.n(600, 48000))
+    ctx.campaign("main", cases(ctx.closed), oracle, max_examples=ctx.n(900, 48000))
